@@ -139,8 +139,9 @@ def get_next_linebox(context, linebox, position_y, bottom_space, skip_stack,
             break
         candidate_height = line.height
 
-        new_excluded_shapes = context.excluded_shapes
-        context.excluded_shapes = excluded_shapes
+        # Change the list in place, the block formatting context refers to it
+        new_excluded_shapes = context.excluded_shapes.copy()
+        context.excluded_shapes[:] = excluded_shapes
         position_x, position_y, available_width = avoid_collisions(
             context, line, containing_block, outer=False)
         if containing_block.style['direction'] == 'ltr':
@@ -150,7 +151,7 @@ def get_next_linebox(context, linebox, position_y, bottom_space, skip_stack,
             condition = (position_x + line.width, position_y) == (
                 original_position_x + original_width, original_position_y)
         if condition:
-            context.excluded_shapes = new_excluded_shapes
+            context.excluded_shapes[:] = new_excluded_shapes
             break
 
     absolute_boxes.extend(line_absolutes)
